@@ -185,6 +185,7 @@ struct Ctx {
   std::atomic<unsigned long> beforeWaitTicks{0};
   std::atomic<bool> cancelIssuedAtomic{false};
   std::function<void(const char*)> fatal;  // called on stall: must not return
+  std::function<void(TaskCore&)> onBeforeComplete;   // C04: execution log written before complete()
 
   void init(const Program& p) {
     prog = &p; size_t n = p.keys.size();
@@ -208,6 +209,7 @@ struct Ctx {
     if (violations.size() < 20) violations.push_back({key, detail});
   }
   const std::string& kname(int k) const { return prog->keys[k].name; }
+  uint64_t sigOf(int k) const { return capiVocabulary ? 0 : prog->keys[k].sigVersion; }   // the C interface has no rule signatures
   std::string kdesc(int k) const { return "#" + std::to_string(k); }
 
   void event(const char* what) {   // every observable event is a step; cancellation is placed on steps
@@ -282,7 +284,7 @@ struct Ctx {
     t->accepted = true;
     Shadow& s = shadow[k];
     bool changed = !s.has || t->comp.force || s.value != t->comp.value || s.interrupted;
-    s.has = true; s.value = t->comp.value; s.sig = prog->keys[k].sigVersion; s.builtAt = buildNo;
+    s.has = true; s.value = t->comp.value; s.sig = sigOf(k); s.builtAt = buildNo;
     if (changed) s.computedAt = buildNo;
     s.deps = t->issued;
     for (int lf : t->comp.leaves) s.deps.push_back({lf, false, false});
@@ -296,7 +298,7 @@ struct Ctx {
     const Shadow& s = shadow[k];
     switch (reason) {
     case 0: if (s.has && !s.interrupted) viol("M-justify: reason NeverBuilt reported for a rule that has a stored result", kdesc(k)); break;
-    case 1: if (!s.has || s.sig == prog->keys[k].sigVersion) viol("M-justify: reason SignatureChanged reported but the signature did not change", kdesc(k)); break;
+    case 1: if (!s.has || s.sig == sigOf(k)) viol("M-justify: reason SignatureChanged reported but the signature did not change", kdesc(k)); break;
     case 2: if (validAnswer[k] != 0 && !s.interrupted) viol("M-justify: reason InvalidValue reported but isResultValid did not answer false in this build", kdesc(k)); break;
     case 3: {
       bool ok = false;
@@ -315,9 +317,9 @@ struct Ctx {
     if (!monitorsOn) { createdThisBuild[k] = 1; return; }
     if (createdThisBuild[k]) viol("M-justify: rule executed twice in one build", kdesc(k));
     createdThisBuild[k] = 1;
-    if (reasonSeen[k] < 0) viol("M-justify: task created without a preceding determinedRuleNeedsToRun in this build", kdesc(k));
+    if (reasonSeen[k] < 0 && !capiVocabulary) viol("M-justify: task created without a preceding determinedRuleNeedsToRun in this build", kdesc(k));
     const Shadow& s = shadow[k];
-    bool just = !s.has || s.sig != prog->keys[k].sigVersion || validAnswer[k] == 0 || s.interrupted || (resolveCycles && reasonSeen[k] == 4);
+    bool just = !s.has || s.sig != sigOf(k) || validAnswer[k] == 0 || s.interrupted || (resolveCycles && reasonSeen[k] == 4);
     if (!just) for (auto& d : s.deps) if (!d.orderOnly && !d.singleUse && shadow[d.key].computedAt > s.builtAt) just = true;
     if (!just) {
       std::string deps;
@@ -424,7 +426,7 @@ inline void TaskCore::onPrior(const std::string& v) {
   priorSeen = true;
   if (!cx.monitorsOn) return;
   const Shadow& s = cx.shadow[key];
-  if (!s.has || s.sig != cx.prog->keys[key].sigVersion) cx.viol("M-proto: providePriorValue delivered although no stored result with the same signature exists", cx.kdesc(key));
+  if (!s.has || s.sig != cx.sigOf(key)) cx.viol("M-proto: providePriorValue delivered although no stored result with the same signature exists", cx.kdesc(key));
   else if (v != s.value && !(s.interrupted && s.hasInterruptedValue && v == s.interruptedValue))
     cx.viol("M-proto: providePriorValue carries a value other than the stored result", cx.kdesc(key) + " got=" + vf::hex(v.substr(0, 32)) + " stored=" + vf::hex(s.value.substr(0, 32)));
 }
@@ -436,7 +438,7 @@ inline void TaskCore::onProvide(TaskOps& ops, uintptr_t id, const std::string* k
   if (st != Started && st != Waiting) cx.viol("M-proto: provideValue outside the start..inputsAvailable window", cx.kdesc(key));
   if (st == Started) {
     // first provide: the prior value, if one was due, must have been delivered by now
-    if (cx.monitorsOn && !cx.capiVocabulary) { const Shadow& s = cx.shadow[key]; if (s.has && s.sig == kd.sigVersion && !priorSeen && !s.interrupted) cx.viol("M-proto: stored result exists with the same signature but providePriorValue was not delivered", cx.kdesc(key)); }
+    if (cx.monitorsOn && !cx.capiVocabulary) { const Shadow& s = cx.shadow[key]; if (s.has && s.sig == cx.sigOf(key) && !priorSeen && !s.interrupted) cx.viol("M-proto: stored result exists with the same signature but providePriorValue was not delivered", cx.kdesc(key)); }
     st = Waiting;
   }
   anyProvide = true;
@@ -462,7 +464,7 @@ inline void TaskCore::onInputsAvailable(TaskOps& ops) {
   const KeyDef& kd = cx.prog->keys[key];
   if (st == Available || st == Completed) cx.viol("M-proto: inputsAvailable delivered more than once", cx.kdesc(key));
   if (st == Created) cx.viol("M-proto: inputsAvailable before start", cx.kdesc(key));
-  if (st == Started && cx.monitorsOn && !cx.capiVocabulary) { const Shadow& s = cx.shadow[key]; if (s.has && s.sig == kd.sigVersion && !priorSeen && !s.interrupted) cx.viol("M-proto: stored result exists with the same signature but providePriorValue was not delivered", cx.kdesc(key)); }
+  if (st == Started && cx.monitorsOn && !cx.capiVocabulary) { const Shadow& s = cx.shadow[key]; if (s.has && s.sig == cx.sigOf(key) && !priorSeen && !s.interrupted) cx.viol("M-proto: stored result exists with the same signature but providePriorValue was not delivered", cx.kdesc(key)); }
   st = Available;
   for (size_t id = 0; id < requested.size(); ++id) if (requested[id] && !provided[id]) cx.viol("M-proto: inputsAvailable before every requested input was provided", cx.kdesc(key) + " missing id=" + std::to_string(id));
   for (int mf : issuedMustFollow) if (cx.monitorsOn && !cx.upToDateSeen[mf] && !cx.completeSeen[mf]) cx.viol("M-proto: inputsAvailable before a must-follow key was brought up to date", cx.kdesc(key) + " must-follow=" + cx.kdesc(mf));
@@ -486,6 +488,7 @@ inline void TaskCore::deliver(TaskOps& ops) {
   if (completionDelivered) { cx.viol("harness: completion delivered twice", cx.kdesc(key)); return; }
   completionDelivered = true;
   const KeyDef& kd = cx.prog->keys[key];
+  if (cx.onBeforeComplete) cx.onBeforeComplete(*this);
   for (int lf : comp.leaves) ops.discovered(cx.kname(lf));
   if (kd.hasExtOut) { cx.world.out[key] = comp.value; cx.world.outPresent[key] = 1; }
   st = Completed;
